@@ -4,7 +4,7 @@ from harness.props import C01
 
 ID = 'C06'
 LEAN_TARGETS = ['Props.C06']
-TIE_A = ['meth_dual_eq']
+TIE_A = ['meth_dual_eq'] + ['lay_complement_eq', 'lay_vee_eq', 'lay_dual_eq']
 OBLIGATIONS = [
     'C06.shortlex_reverse_complement', 'C06.shortlexOrder_mirror_upto8', 'C06.shortlexOrder_mirror_all', 'C06.shortlexOrder_mirror_index', 'C06.blade_wedge_rc', 'C06.lc_wedge_blade',
     'C06.rc_linear_add', 'C06.rc_linear_smul', 'C06.lc_linear_add', 'C06.lc_linear_smul', 'C06.lc_rc', 'C06.rc_lc',
